@@ -59,15 +59,15 @@ def strategy(tier):
     return _case(tier)
 
 
-def _with_fail(nodes, failing):
+def _with_fail(nodes, failing, per_args=False):
     out = []
     for n in nodes:
         if n["k"] == "graph":
             g = dict(n["graph"])
-            g["nodes"] = _with_fail(g["nodes"], failing)
+            g["nodes"] = _with_fail(g["nodes"], failing, per_args)
             out.append({**n, "graph": g})
         elif n["name"] in failing:
-            out.append({**n, "fail": "always"})
+            out.append({**n, "fail": "always", **({"fail_per_args": True} if per_args else {})})
         else:
             out.append(n)
     return out
@@ -273,6 +273,32 @@ def check_case(case, ev):
                                 if v != [None] * len(items):
                                     raise Violation("c11.map_continue_values", f"[{tag}] {k}={J(v)}: every item fails, expected {len(items)} None placeholders")
             labels.add("map:" + mapped["via"])
+            if mapped["via"] == "runner.map" and len(items) >= 2:
+                # bounded async map under a drawn completion order: every item's FAILED result carries the exception object
+                # raised for THAT item's arguments (one pre-allocated object per argument tuple), at that item's position
+                ctx = Ctx()
+                g = make_graph(ctx, {"nodes": _with_fail(nodes, set(failing), per_args=True)}, "async")
+                singles_m = [run_async(g, {**values, mapped["param"]: it}, error_handling="continue") for it in items]
+                ctx.reset()
+                tag = f"runner.map sched continue mc=2 failing={failing}"
+                mv = {**values, mapped["param"]: items}
+                out, _ = run_scheduled(ctx, g, mv, case["sched"], method="map", map_over=mapped["param"], error_handling="continue", max_concurrency=2)
+                if out.status == "deadlock":
+                    raise Violation("c11.deadlock", f"[{tag}] {out.error}")
+                if out.status == "raised":
+                    raise Violation("c11.map_error", f"[{tag}] raised {type(out.error).__name__}: {str(out.error)[:200]}", got=type(out.error).__name__)
+                res = out.result
+                if len(res) != len(items):
+                    raise Violation("c11.map_item_error", f"[{tag}] {len(res)} results for {len(items)} items")
+                for i, (r, s1) in enumerate(zip(res, singles_m)):
+                    if r.status.value != s1.status or r.error is not s1.error or dict(r.values) != (s1.values or {}):
+                        raise Violation("c11.map_item_error", f"[{tag}] item #{i}: {r.status.value} error={r.error!r} values={J(dict(r.values))}; the single run on that item gives {s1.brief()} (the error object belongs to another item)" if r.error is not s1.error else
+                                        f"[{tag}] item #{i}: {r.status.value} values={J(dict(r.values))}; the single run on that item gives {s1.brief()}", what="per_item_identity")
+                ctx.reset()
+                out, _ = run_scheduled(ctx, g, mv, case["sched"], method="map", map_over=mapped["param"], error_handling="raise", max_concurrency=2)
+                if out.status != "raised" or not any(out.error is s1.error for s1 in singles_m):
+                    raise Violation("c11.map_error", f"[runner.map sched raise mc=2 failing={failing}] gave {out.brief() if out.status != 'map' else 'a result list'} instead of raising one of the items' exception objects", got=out.status)
+                labels.add("map:scheduled_bounded_per_item_identity")
     if anc_desc:
         labels.add("failing_with_ancestor_and_descendant")
     if nested_fail:
